@@ -124,8 +124,10 @@ pub async fn transfer_file_to_remote(
     let touch = mtime.map_or(String::new(), |t| format!(" && touch -d @{t} $'{escaped}'"));
     let mut child = tokio::process::Command::new("ssh")
         .arg(host)
+        // `cat` exits 0 on EOF even when this sender died mid-stream, so the rename is
+        // additionally gated on the staged file having exactly the announced size.
         .arg(format!(
-            "cat > $'{tmp_escaped}' && mv -f $'{tmp_escaped}' $'{escaped}'{touch}"
+            "cat > $'{tmp_escaped}' && find $'{tmp_escaped}' -size {file_size}c | grep -q . && mv -f $'{tmp_escaped}' $'{escaped}'{touch}"
         ))
         .stdin(std::process::Stdio::piped())
         .stdout(std::process::Stdio::null())
